@@ -440,6 +440,62 @@ impl Task {
         )
     }
 
+    /// A task without a coroutine, for the out-of-tree verification harnesses: every field a
+    /// scheduler or a synchronisation primitive can observe is initialised as `Task::new` does.
+    #[cfg(feature = "verif-hooks")]
+    pub fn verif_stub(id: TaskId, clock: VectorClock, parent_task_id: Option<TaskId>) -> Self {
+        Self {
+            id,
+            parent_task_id,
+            state: TaskState::Runnable,
+            continuation: Rc::new(RefCell::new(PooledContinuation::verif_stub())),
+            yielder: std::ptr::null(),
+            clock,
+            waiter: None,
+            waker: make_waker(id),
+            woken: false,
+            detached: false,
+            park_state: ParkState::default(),
+            name: None,
+            step_span: Span::none(),
+            span_stack: Vec::new(),
+            local_storage: StorageMap::new(),
+            tag: None,
+            backtrace: None,
+            signature: TaskSignature {
+                task_creation_stack: Vec::new(),
+                spawn_call_site_hash: 0,
+                parent_signature_hash: 0,
+                signature_hash: id.0 as u64,
+                child_counters: HashMap::new(),
+            },
+        }
+    }
+
+    /// Read-only view of the scheduling state, for the verification harnesses.
+    #[cfg(feature = "verif-hooks")]
+    pub fn verif_state(&self) -> TaskState {
+        self.state
+    }
+
+    /// Read-only view of the park token state `(token_available, blocked_in_park)`.
+    #[cfg(feature = "verif-hooks")]
+    pub fn verif_park_state(&self) -> (bool, bool) {
+        (self.park_state.token_available, self.park_state.blocked_in_park)
+    }
+
+    /// Whether the waker was invoked since the task was last put to sleep.
+    #[cfg(feature = "verif-hooks")]
+    pub fn verif_woken(&self) -> bool {
+        self.woken
+    }
+
+    /// The registered join waiter, if any.
+    #[cfg(feature = "verif-hooks")]
+    pub fn verif_waiter(&self) -> Option<TaskId> {
+        self.waiter
+    }
+
     /// Returns the identifier of this task.
     pub fn id(&self) -> TaskId {
         self.id
